@@ -10,12 +10,13 @@ Definition shared_fresh_case : case :=
                     fint := []; fret := [] |}];
      c_inputs := [((s "x"), (VA {| shp := [2%nat]; dat := [(s "a"); (s "b")] |}))];
      c_internal := []; c_user_int := []; c_func_int := [];
-     c_storage := (StUni (s "shared_memory_dict")); c_persist := true; c_fresh := true; c_xr := (s "ok"); c_mut := MNone |}.
+     c_storage := (StUni (s "shared_memory_dict")); c_persist := true; c_fresh := true; c_xr := (s "ok"); c_mut := MNone; c_xr_coords := []; c_prev := []; c_cleanup := true |}.
 
 (* what the real code BEFORE the repair (repo commit 2366f61, i.e. before 7bf0304) returned for this case, recorded through
-   harness/props/c04.py: load_outputs("y") raises FileNotFoundError in the fresh interpreter *)
+   harness/props/c04.py: load_outputs("y") raises FileNotFoundError in the fresh interpreter
+   (last component, added later to the observation layout: 0 earlier runs into the folder) *)
 Definition shared_fresh_unrepaired_obs : sx :=
-(SL [(SS (s "ok")); (SL [(SL [(SL [(SL [(SS (s "y")); (SL [(SS (s "arr")); (SL [(SI (2)%Z)]); (SL [(SS (s "f(x=a)")); (SS (s "f(x=b)"))])])])]); (SL [(SL [(SS (s "y"))]); (SL [(SL [(SS (s "x")); (SL [(SI (2)%Z)])]); (SL [(SS (s "y")); (SL [(SI (2)%Z)])])]); (SL [(SL [(SS (s "x")); (SL [(SL [(SS (s "bool")); (SI (1)%Z)])])]); (SL [(SS (s "y")); (SL [(SL [(SS (s "bool")); (SI (1)%Z)])])])]); (SL [(SS (s "none"))]); (SS (s "shared_memory_dict")); (SL [(SS (s "x[i] -> y[i]"))]); (SS (s "F")); (SS (s "V"))]); (SL [(SL [(SS (s "x")); (SL [(SS (s "arr")); (SL [(SI (2)%Z)]); (SL [(SS (s "a")); (SS (s "b"))])])])]); (SL [])]); (SL [(SS (s "defaults/defaults.cloudpickle")); (SS (s "inputs/x.cloudpickle")); (SS (s "outputs/y")); (SS (s "outputs/y/dict_array.cloudpickle")); (SS (s "run_info.json"))]); (SL [(SL [(SL [(SS (s "y")); (SL [(SS (s "err")); (SS (s "FileNotFoundError"))])])]); (SL [(SS (s "ok")); (SL [(SL [(SL [(SS (s "y"))]); (SL [(SL [(SS (s "x")); (SL [(SI (2)%Z)])]); (SL [(SS (s "y")); (SL [(SI (2)%Z)])])]); (SL [(SL [(SS (s "x")); (SL [(SL [(SS (s "bool")); (SI (1)%Z)])])]); (SL [(SS (s "y")); (SL [(SL [(SS (s "bool")); (SI (1)%Z)])])])]); (SL [(SS (s "none"))]); (SS (s "shared_memory_dict")); (SL [(SS (s "x[i] -> y[i]"))]); (SS (s "F")); (SS (s "V"))]); (SL [(SL [(SS (s "x")); (SL [(SS (s "arr")); (SL [(SI (2)%Z)]); (SL [(SS (s "a")); (SS (s "b"))])])])]); (SL [])])]); (SL [(SS (s "err")); (SS (s "FileNotFoundError"))])]); (SS (s "same")); (SL [(SS (s "bool")); (SI (1)%Z)]); (SL [(SS (s "bool")); (SI (1)%Z)])])]).
+(SL [(SS (s "ok")); (SL [(SL [(SL [(SL [(SS (s "y")); (SL [(SS (s "arr")); (SL [(SI (2)%Z)]); (SL [(SS (s "f(x=a)")); (SS (s "f(x=b)"))])])])]); (SL [(SL [(SS (s "y"))]); (SL [(SL [(SS (s "x")); (SL [(SI (2)%Z)])]); (SL [(SS (s "y")); (SL [(SI (2)%Z)])])]); (SL [(SL [(SS (s "x")); (SL [(SL [(SS (s "bool")); (SI (1)%Z)])])]); (SL [(SS (s "y")); (SL [(SL [(SS (s "bool")); (SI (1)%Z)])])])]); (SL [(SS (s "none"))]); (SS (s "shared_memory_dict")); (SL [(SS (s "x[i] -> y[i]"))]); (SS (s "F")); (SS (s "V"))]); (SL [(SL [(SS (s "x")); (SL [(SS (s "arr")); (SL [(SI (2)%Z)]); (SL [(SS (s "a")); (SS (s "b"))])])])]); (SL [])]); (SL [(SS (s "defaults/defaults.cloudpickle")); (SS (s "inputs/x.cloudpickle")); (SS (s "outputs/y")); (SS (s "outputs/y/dict_array.cloudpickle")); (SS (s "run_info.json"))]); (SL [(SL [(SL [(SS (s "y")); (SL [(SS (s "err")); (SS (s "FileNotFoundError"))])])]); (SL [(SS (s "ok")); (SL [(SL [(SL [(SS (s "y"))]); (SL [(SL [(SS (s "x")); (SL [(SI (2)%Z)])]); (SL [(SS (s "y")); (SL [(SI (2)%Z)])])]); (SL [(SL [(SS (s "x")); (SL [(SL [(SS (s "bool")); (SI (1)%Z)])])]); (SL [(SS (s "y")); (SL [(SL [(SS (s "bool")); (SI (1)%Z)])])])]); (SL [(SS (s "none"))]); (SS (s "shared_memory_dict")); (SL [(SS (s "x[i] -> y[i]"))]); (SS (s "F")); (SS (s "V"))]); (SL [(SL [(SS (s "x")); (SL [(SS (s "arr")); (SL [(SI (2)%Z)]); (SL [(SS (s "a")); (SS (s "b"))])])])]); (SL [])])]); (SL [(SS (s "err")); (SS (s "FileNotFoundError"))])]); (SS (s "same")); (SL [(SS (s "bool")); (SI (1)%Z)]); (SL [(SS (s "bool")); (SI (1)%Z)]); (SI (0)%Z)])]).
 
 Lemma legacy_model_matches_unrepaired_code : run_with true shared_fresh_case = shared_fresh_unrepaired_obs.
 Proof. vm_compute. reflexivity. Qed.
@@ -38,7 +39,7 @@ Qed.
 (* a run with a tuple-output function with an internal axis (file_array under its tuple key), a reduction over that
    axis and a single output (both under the "" default shared_memory_dict), one internal shape given as a bare int *)
 Definition mixed_case : case :=
-  {| c_funcs := [{| fname := (s "f0"); fouts := [(s "y0"); (s "z0")]; fparams := [(s "x0")]; fbound := []; fdefaults := []; fspec := (Some {| ins := [{| aname := (s "x0"); axes := [(Some (s "i"))] |}]; outs := [{| aname := (s "y0"); axes := [(Some (s "i")); (Some (s "n0"))] |}; {| aname := (s "z0"); axes := [(Some (s "i")); (Some (s "n0"))] |}] |}); fint := []; fret := [2%nat] |}; {| fname := (s "f1"); fouts := [(s "y1")]; fparams := [(s "y0"); (s "c0")]; fbound := []; fdefaults := []; fspec := (Some {| ins := [{| aname := (s "y0"); axes := [(Some (s "i")); None] |}]; outs := [{| aname := (s "y1"); axes := [(Some (s "i"))] |}] |}); fint := []; fret := [] |}; {| fname := (s "f2"); fouts := [(s "y2")]; fparams := [(s "y1")]; fbound := []; fdefaults := []; fspec := None; fint := []; fret := [] |}]; c_inputs := [((s "x0"), (VA {| shp := [2%nat]; dat := [(s "a"); (s "b")] |})); ((s "c0"), (VS (s "C0")))]; c_internal := [((s "y0"), [2%nat]); ((s "z0"), [2%nat])]; c_user_int := [(s "y0")]; c_func_int := []; c_storage := (StDict [((KTup [(s "y0"); (s "z0")]), (s "file_array")); ((KName (s "")), (s "shared_memory_dict"))]); c_persist := true; c_fresh := true; c_xr := (s "ok"); c_mut := MNone |}.
+  {| c_funcs := [{| fname := (s "f0"); fouts := [(s "y0"); (s "z0")]; fparams := [(s "x0")]; fbound := []; fdefaults := []; fspec := (Some {| ins := [{| aname := (s "x0"); axes := [(Some (s "i"))] |}]; outs := [{| aname := (s "y0"); axes := [(Some (s "i")); (Some (s "n0"))] |}; {| aname := (s "z0"); axes := [(Some (s "i")); (Some (s "n0"))] |}] |}); fint := []; fret := [2%nat] |}; {| fname := (s "f1"); fouts := [(s "y1")]; fparams := [(s "y0"); (s "c0")]; fbound := []; fdefaults := []; fspec := (Some {| ins := [{| aname := (s "y0"); axes := [(Some (s "i")); None] |}]; outs := [{| aname := (s "y1"); axes := [(Some (s "i"))] |}] |}); fint := []; fret := [] |}; {| fname := (s "f2"); fouts := [(s "y2")]; fparams := [(s "y1")]; fbound := []; fdefaults := []; fspec := None; fint := []; fret := [] |}]; c_inputs := [((s "x0"), (VA {| shp := [2%nat]; dat := [(s "a"); (s "b")] |})); ((s "c0"), (VS (s "C0")))]; c_internal := [((s "y0"), [2%nat]); ((s "z0"), [2%nat])]; c_user_int := [(s "y0")]; c_func_int := []; c_storage := (StDict [((KTup [(s "y0"); (s "z0")]), (s "file_array")); ((KName (s "")), (s "shared_memory_dict"))]); c_persist := true; c_fresh := true; c_xr := (s "ok"); c_mut := MNone; c_xr_coords := []; c_prev := []; c_cleanup := true |}.
 
 Lemma mixed_case_finishes :
   exists f, finish false mixed_case = Ok f /\ valid_request mixed_case = true /\ finished_consistent mixed_case f = true
